@@ -1,35 +1,38 @@
 (* C13 -- DAP breakpoint requests replace, and their options are honoured whenever set.
-   Headline statements; proofs are in ProofsDapBp.v. *)
+   Model of /repo HEAD (after fixes a630610, 5361f91, 8630d99).  Proofs are in ProofsDapBp.v. *)
 From BS Require Import Model.Base.
 From W Require Import ModelDapBp ProofsDapBp.
 Open Scope N_scope.
 
-(* FULL PROPERTY (false of the faithful model, see the *_refuted theorems):
-     forall oracles h s rs, run (sess_init n0) h = Ok (s, rs) ->
-       (forall x, In x (reg_locs bias (s_dbg s)) <-> In x (expected_locs (spec_run h)))
-       /\ every Hit is answered by spec_stop of the owner's options. *)
-
-(* PARTIAL: replace holds when every set-request arrives while the debuggee runs, lines have
-   one location and requested breakpoints do not share locations (decidable guard). *)
-Theorem C13_replace_partial :
+(* REPLACE: after any history -- requests before the start, while running, after the exit,
+   across restarts, lines with several locations -- the registry's locations are exactly those
+   of the latest sets, provided no location is shared by two requested breakpoints (boolean
+   guard; its two technical clauses: an instruction breakpoint requested while the debuggee is not
+   running names an installable address; the 32-bit breakpoint counter does not wrap). *)
+Theorem C13_replace :
   forall rl rf va wo bias n0 h s rs,
-    guard rl rf va bias h = true ->
+    guard rl rf va bias n0 h = true ->
     run rl rf va wo bias (sess_init n0) h = Ok (s, rs) ->
     forall x, In x (reg_locs bias (s_dbg s)) <-> In x (expected_locs rl rf va bias (spec_run h)).
-Proof. exact ProofsDapBp.C13_replace_partial. Qed.
+Proof. exact ProofsDapBp.C13_replace. Qed.
 
-Theorem C13_hit_consults_record_partial :
+(* OPTIONS: a trap at any location of the latest sets finds the record owning the breakpoint
+   installed there, in whatever phase it was created ... *)
+Theorem C13_options :
   forall rl rf va wo bias n0 h s rs x,
-    guard rl rf va bias h = true ->
+    guard rl rf va bias n0 h = true ->
     run rl rf va wo bias (sess_init n0) h = Ok (s, rs) ->
+    d_phase (s_dbg s) = InProgress ->
     In x (expected_locs rl rf va bias (spec_run h)) ->
-    exists s' b, record_hit s (Rel x) = Some (s', b) /\ In (Rel x) (r_addrs b).
-Proof. exact ProofsDapBp.C13_hit_consults_record_partial. Qed.
+    exists num s' b, alist_get N.eqb (d_en (s_dbg s)) x = Some num /\
+                     record_hit s num = Some (s', b) /\ In num (r_nums b).
+Proof. exact ProofsDapBp.C13_options. Qed.
 
+(* ... and the decision taken on a record is the specified option semantics *)
 Theorem C13_options_record :
-  forall id addrs o n cv,
+  forall id addrs nums o n cv,
     n + 1 < u64_lim -> (o_cond o = true -> cv <> None) ->
-    fst (decide (bump (mk_rec id addrs (o_cond o) (parse_hit_opt (o_hit o)) (o_log o) n)) cv)
+    fst (decide (bump (mk_rec id addrs nums (o_cond o) (parse_hit_opt (o_hit o)) (o_log o) n)) cv)
     = spec_stop o (n + 1) cv.
 Proof. exact ProofsDapBp.C13_options_record. Qed.
 
@@ -52,45 +55,33 @@ Theorem C13_verified_instruction_partial :
     map fst l = map (fun b => nonempty (ins_locs va bias b)) bps.
 Proof. exact ProofsDapBp.C13_verified_instruction_partial. Qed.
 
-(* REFUTED parts, each with its witness history *)
-Theorem C13_phase_refuted :
-  let h := [SetSource 1 [(10, no_opts)]; Start; SetSource 1 []] in
-  w_exp h = [] /\ w_locs (w_run h) = Some [4196] /\ w_last (w_run h) = Some (RBps []).
-Proof. exact ProofsDapBp.C13_phase_refuted. Qed.
-
-Theorem C13_phase_options_refuted :
-  w_last (w_run [SetSource 1 [(10, o_cond_only)]; Start; Hit 4196 (Some false)]) = Some (RHit true 0)
-  /\ spec_stop o_cond_only 1 (Some false) = false
-  /\ w_last (w_run [SetSource 1 [(10, o_log_only)]; Start; Hit 4196 (Some true)]) = Some (RHit true 0)
-  /\ spec_stop o_log_only 1 (Some true) = false
-  /\ w_last (w_run [SetSource 1 [(10, o_hit2)]; Start; Hit 4196 (Some true)]) = Some (RHit true 0)
-  /\ spec_stop o_hit2 1 (Some true) = false
-  /\ w_last (w_run [Start; SetSource 1 [(10, o_cond_only)]; Hit 4196 (Some false)]) = Some (RHit false 0)
-  /\ w_last (w_run [Start; SetSource 1 [(10, o_log_only)]; Hit 4196 (Some true)]) = Some (RHit false 1)
-  /\ w_last (w_run [Start; SetSource 1 [(10, o_hit2)]; Hit 4196 (Some true)]) = Some (RHit false 0).
-Proof. exact ProofsDapBp.C13_phase_options_refuted. Qed.
-
-Theorem C13_multi_location_refuted :
-  let h := [Start; SetSource 1 [(20, no_opts)]; SetSource 1 []] in
-  w_exp h = [] /\ w_locs (w_run h) = Some [4396]
-  /\ w_last (w_run [Start; SetSource 1 [(20, o_log_only)]; Hit 4396 (Some true)]) = Some (RHit true 0).
-Proof. exact ProofsDapBp.C13_multi_location_refuted. Qed.
-
+(* STILL REFUTED (open findings) *)
 Theorem C13_shared_location_refuted :
   let h := [Start; SetSource 1 [(10, no_opts)]; SetFunction [(Some 7, no_opts)]; SetFunction []] in
-  w_exp h = [4196] /\ w_locs (w_run h) = Some [].
+  w_exp h = [4196] /\ w_locs (w_run h) = Some [] /\ w_guard h = false.
 Proof. exact ProofsDapBp.C13_shared_location_refuted. Qed.
-
-Theorem C13_exited_refuted :
-  let h := [Start; SetSource 1 [(10, no_opts)]; Exit; SetSource 1 []; Restart] in
-  w_exp h = [] /\ w_locs (w_run h) = Some [4196].
-Proof. exact ProofsDapBp.C13_exited_refuted. Qed.
 
 Theorem C13_instr_verified_refuted :
   let h := [SetInstruction [(Some 5, no_opts)]; Start] in
-  w_exp h = [] /\ w_locs (w_run h) = Some []
+  w_exp h = [] /\ w_locs (w_run h) = Some [] /\ w_guard h = false
   /\ w_last (w_run [SetInstruction [(Some 5, no_opts)]]) = Some (RBps [(true, 1)]).
 Proof. exact ProofsDapBp.C13_instr_verified_refuted. Qed.
+
+(* C13_phase_refuted_old, C13_phase_options_refuted_old, C13_multi_location_refuted_old,
+   C13_exited_refuted_old: refuted on the pre-fix model (ProofsDapBp_old.v.bak), fixed in /repo;
+   the same histories now satisfy the guard and the property: *)
+Example C13_formerly_refuted_now_hold :
+  (let h := [SetSource 1 [(10, no_opts)]; Start; SetSource 1 []] in
+   w_guard h = true /\ w_exp h = [] /\ w_locs (w_run h) = Some [])
+  /\ (let h := [Start; SetSource 1 [(20, no_opts)]; SetSource 1 []] in
+      w_guard h = true /\ w_exp h = [] /\ w_locs (w_run h) = Some [])
+  /\ (let h := [Start; SetSource 1 [(10, no_opts)]; Exit; SetSource 1 []; Restart] in
+      w_guard h = true /\ w_exp h = [] /\ w_locs (w_run h) = Some [])
+  /\ w_last (w_run [SetSource 1 [(10, o_cond_only)]; Start; Hit 4196 (Some false)]) = Some (RHit false 0)
+  /\ w_last (w_run [SetSource 1 [(10, o_log_only)]; Start; Hit 4196 (Some true)]) = Some (RHit false 1)
+  /\ w_last (w_run [SetSource 1 [(10, o_hit2)]; Start; Hit 4196 (Some true)]) = Some (RHit false 0)
+  /\ w_last (w_run [Start; SetSource 1 [(20, o_log_only)]; Hit 4396 (Some true)]) = Some (RHit false 1).
+Proof. exact ProofsDapBp.C13_formerly_refuted_now_hold. Qed.
 
 (* HitCondition: matches (parse s) n is the arithmetic meaning of s; everything outside the
    syntax is Invalid = always true; parse is total (no error, no panic). *)
@@ -104,22 +95,20 @@ Theorem C13_hitcondition_invalid_iff :
   forall s, (exists raw, hc_parse s = HInvalid raw) <-> ~ exists o v, hc_denotes s o v.
 Proof. exact ProofsDapBp.C13_hitcondition_invalid_iff. Qed.
 
-(* non-vacuity: a history with every kind of request satisfies the guard *)
+(* non-vacuity: a history with every kind of request in every phase satisfies the guard *)
 Example C13_guard_nonvacuous :
-  guard w_rl w_rf w_va w_bias w_good = true /\ w_locs (w_run w_good) = Some [4196; 4216]
-  /\ w_exp w_good = [4216; 4196].
+  w_guard w_good = true /\ w_locs (w_run w_good) = Some [4396; 4296; 4216; 4196]
+  /\ w_exp w_good = [4196; 4216; 4296; 4396].
 Proof. exact ProofsDapBp.guard_nonvacuous. Qed.
 
-Print Assumptions C13_replace_partial.
-Print Assumptions C13_hit_consults_record_partial.
+Print Assumptions C13_replace.
+Print Assumptions C13_options.
 Print Assumptions C13_options_record.
 Print Assumptions C13_verified_source.
+Print Assumptions C13_verified_function.
 Print Assumptions C13_verified_instruction_partial.
-Print Assumptions C13_phase_refuted.
-Print Assumptions C13_phase_options_refuted.
-Print Assumptions C13_multi_location_refuted.
 Print Assumptions C13_shared_location_refuted.
-Print Assumptions C13_exited_refuted.
 Print Assumptions C13_instr_verified_refuted.
+Print Assumptions C13_formerly_refuted_now_hold.
 Print Assumptions C13_hitcondition.
 Print Assumptions C13_hitcondition_invalid_iff.
